@@ -17,15 +17,18 @@ open CTV CTV.Model.AddChain
 
 /-! ## What the code hashes, signs and builds from (regenerated source facts) -/
 
-/-- The values the handler's helpers read are the ones the model uses: the X.509 entry is `chain[0].Raw`; the issuer key
-hash is over `issuer.RawSubjectPublicKeyInfo` (the bytes in the issuer's certificate, not a re-encoding); the TBS
-comes from `BuildPrecertTBS(cert.RawTBSCertificate, preIssuer)`; the identity hash is over the certificate's DER
+/-- The values the handler's helpers read are the ones the model uses: the X.509 entry is `chain[0].Raw` (`$elem0` = the
+first element); the issuer key hash is over `issuer.RawSubjectPublicKeyInfo` (the bytes in the issuer's certificate, not a
+re-encoding; `$var($[]*x509.Certificate[1])` = the reassigned local that starts as `chain[1]`, see `Gen.mtlIssuerIdx` /
+`Gen.mtlFinalIssuerIdx`); the TBS comes from `BuildPrecertTBS(cert.RawTBSCertificate, preIssuer)` (`$BuildPrecertTBS` = its
+result, `$decl(*x509.Certificate)` = the local declared `var preIssuer *x509.Certificate`); the identity hash is over the certificate's DER
 (`cert.Data`); the SCT is built from the leaf **returned** by the backend (`$QueueLeaf` = the local that holds the
 `QueueLeaf` response, `$decl(ct.MerkleTreeLeaf)` = the leaf decoded from it; canonical names of `extract/canon.go`, stable under
 renaming and hoisting) and takes timestamp and extensions from it. -/
 theorem sources_as_modelled :
-    ("Data", "chain[0].Raw") ∈ Gen.mtlFields ∧ ("TBSCertificate", "defangedTBS") ∈ Gen.mtlFields ∧
-    Gen.mtlKeyHashOf = "issuer.RawSubjectPublicKeyInfo" ∧ Gen.mtlTBSArgs = "cert.RawTBSCertificate, preIssuer" ∧
+    ("Data", "$elem0.Raw") ∈ Gen.mtlFields ∧ ("TBSCertificate", "$BuildPrecertTBS") ∈ Gen.mtlFields ∧
+    Gen.mtlKeyHashOf = "$var($[]*x509.Certificate[1]).RawSubjectPublicKeyInfo" ∧
+    Gen.mtlTBSArgs = "$elem0.RawTBSCertificate,$decl(*x509.Certificate)" ∧
     Gen.idHashOf = "$ct.ASN1Cert.Data" ∧
     Gen.sctLeafSource = "$QueueLeaf.QueuedLeaf.Leaf.LeafValue" ∧ Gen.sctBuiltFrom = "&$decl(ct.MerkleTreeLeaf)" ∧
     ("Timestamp", "$*ct.MerkleTreeLeaf.TimestampedEntry.Timestamp") ∈ Gen.sctFields ∧
